@@ -9,11 +9,11 @@ package main
 //
 //   header   8 9 35 49 56 34 52 required; 43 97 122 115 128 129 116 50 57 142 143 144 145 369 1128 optional
 //   trailer  10 required; 93 89 optional
-//   admin    0 (112) · 1 (112!) · 2 (7! 16!) · 3 (45! 371 372 373 58) · 4 (123 36!) · 5 (58) · A (98! 108! 141 [1137! in SDT])
+//   admin    0 (112) · 1 (112!) · 2 (7! 16!) · 3 (45! 371 372 373 58) · 4 (123 36!) · 5 (58) · A (98! 108! 141 789 [1137! in SDT])
 //   app      D (9000! 55! 54! 1 38 60) · 8 (9000! 55! 54 37 1 60) · AE (9000! 55! 571 1 38 60) · j (372! 380! 45 379 58 9000)
 //            — every message also allows 9001 (the scripted verdict), application messages 9002 / 9003
 //   enumerated: 98 EncryptMethod 0–6, 54 Side 1 2 5, 373 SessionRejectReason 0–17, 380 BusinessRejectReason 0–5
-//   typed (no enumeration): 108 INT, 7 16 36 45 SEQNUM, 371 INT, 38 QTY, 60 UTCTIMESTAMP, 123 141 43 97 BOOLEAN, 9000 INT
+//   typed (no enumeration): 108 INT, 7 16 36 45 789 SEQNUM, 371 INT, 38 QTY, 60 UTCTIMESTAMP, 123 141 43 97 BOOLEAN, 9000 INT
 //
 // SD4 holds everything; SDT holds header, trailer and the administrative messages; SDA holds the application messages with an
 // empty header and trailer (as the shipped FIX50*.xml do).
@@ -50,7 +50,7 @@ var sessAdminFields = []dField{
 	{"RefSeqNum", 45, "SEQNUM", nil}, {"RefTagID", 371, "INT", nil}, {"RefMsgType", 372, "STRING", nil},
 	{"SessionRejectReason", 373, "INT", seqEnums(0, 17)}, {"Text", 58, "STRING", nil}, {"GapFillFlag", 123, "BOOLEAN", nil},
 	{"NewSeqNo", 36, "SEQNUM", nil}, {"EncryptMethod", 98, "INT", seqEnums(0, 6)}, {"HeartBtInt", 108, "INT", nil},
-	{"ResetSeqNumFlag", 141, "BOOLEAN", nil}, {"DefaultApplVerID", 1137, "STRING", nil}, {"VerifVerdict", 9001, "STRING", nil},
+	{"ResetSeqNumFlag", 141, "BOOLEAN", nil}, {"NextExpectedMsgSeqNum", 789, "SEQNUM", nil}, {"DefaultApplVerID", 1137, "STRING", nil}, {"VerifVerdict", 9001, "STRING", nil},
 }
 
 var sessAppFields = []dField{
@@ -95,7 +95,7 @@ const sessTrailerSpec = "93 89 10!"
 var sessAdminMsgs = [][3]string{
 	{"Heartbeat", "0", "112 9001"}, {"TestRequest", "1", "112! 9001"}, {"ResendRequest", "2", "7! 16! 9001"},
 	{"Reject", "3", "45! 371 372 373 58 9001"}, {"SequenceReset", "4", "123 36! 9001"}, {"Logout", "5", "58 9001"},
-	{"Logon", "A", "98! 108! 141 9001"},
+	{"Logon", "A", "98! 108! 141 789 9001"},
 }
 
 var sessAppMsgs = [][3]string{
